@@ -1067,6 +1067,15 @@ def one_case(ctx, cname, rng, index):
              props={A.PROP_NAME: v('hname'), A.PROP_TYPE: n['props'].get('Type', 'Server'),
                     A.PROP_CAPACITIES: caps(rng).to_json(), A.PROP_LABELS: json.dumps({'vlan': '7'})})
     call(h, 'add_node', node_id=v('only-h'), label=A.CLASS_NetworkNode, props={A.PROP_NAME: v('hname'), A.PROP_TYPE: 'Server'})
+    # property dictionaries that are empty or only repeat the identity of the call (what get_node_properties() returns for a bare
+    # node, handed to add_node when copying it): the map in the statement is then made of the identity alone
+    call(h, 'add_node', node_id=v('bare-1'), label=A.CLASS_NetworkNode, props={})
+    bid = v('bare-2')
+    call(h, 'add_node', node_id=bid, label=A.CLASS_NetworkNode, props={A.NODE_ID: bid})
+    bid = v('bare-3')
+    call(h, 'add_node', node_id=bid, label=A.CLASS_Link, props={'Class': A.CLASS_Link, A.GRAPH_ID: hid, A.NODE_ID: bid})
+    bid = v('bare-4')
+    call(h, 'add_node', node_id=bid, label=A.CLASS_Link, props={A.GRAPH_ID: hid, A.PROP_NAME: v('hname')})
     call(h, 'add_link', node_a=b['server'], rel=A.REL_HAS, node_b=b['comps'][0])
     call(h, 'add_link', node_a=b['server'], rel=A.REL_CONNECTS, node_b=b['switch'], props=None)
     # an end node that does not exist (caller mistake / deleted meanwhile): whatever the backend then says to the driver is judged too
